@@ -14,7 +14,9 @@ LEAVES = ['role:admin', 'role:%(x)s', 'rule:other', 'rule:a:b', 'user_id:%(user_
           "'admin':%(x)s", '"u":%(user_id)s', "'nope':%(x)s", 'None:%(absent)s', '1:%(one)s',
           # remote checks whose URL carries everything a URL may: user info, port, query, fragment
           'http://alice:s3cret@h/check', 'https://u:p@h:8443/%(id)s', 'http://user@h/p', 'http://h:80/p?x=1&y=%(id)s#f',
-          'https://bob:hunter2@h/check', 'http://:@h/', 'http://***:***@h/check']
+          'https://bob:hunter2@h/check', 'http://:@h/', 'http://***:***@h/check',
+          # a left side that differs from a check kind only by letter case is an attribute path like any other
+          'Role:admin', 'RULE:other', 'Http://host/p', 'rOLE:%(x)s', 'Rule:a:b']
 ROLESETS = [[], ['admin'], ['other'], ['admin', 'other']]
 
 
